@@ -34,7 +34,7 @@ def confirm(pid: str, k: int):
         if a.returncode != 0:
             return f"patch does not apply: {a.stderr[:200]}"
         r1 = sh(["/venv/bin/python", str(demo)], env=env, cwd=wt, timeout=600)
-        b = sh(["/venv/bin/python", "/tmp/seed/baseline.py", wt], timeout=3000)
+        b = sh(["/venv/bin/python", str(VERIF / "tools" / "seed_baseline.py"), wt], timeout=3000)
         ok = r0.returncode == 0 and r1.returncode == 1 and b.returncode == 0
         ran = {"demo_clean_rc": r0.returncode, "demo_patched_rc": r1.returncode, "baseline_rc": b.returncode,
                "baseline_tail": b.stdout.strip().split("\n")[:3], "demo_patched_output": (r1.stdout + r1.stderr)[-600:]}
@@ -42,7 +42,7 @@ def confirm(pid: str, k: int):
             return f"NOT confirmed: {ran}"
         dest.mkdir(parents=True, exist_ok=True)
         # the demo refers to the scratch worktree path: make it tree-agnostic (it imports octave_mcp from PYTHONPATH)
-        text = demo.read_text().replace(f"/tmp/seed/wt4_{pid}", "$REPO").replace(f"/tmp/seed/wt3_{pid}", "$REPO").replace(f"/tmp/seed/wt_{pid}", "$REPO")
+        text = demo.read_text().replace(f"/tmp/seed/wt5_{pid}", "$REPO").replace(f"/tmp/seed/wt4_{pid}", "$REPO").replace(f"/tmp/seed/wt3_{pid}", "$REPO").replace(f"/tmp/seed/wt_{pid}", "$REPO")
         (dest / "demo.py").write_text(text)
         shutil.copy(patch, dest / "patch.diff")
         m = json.load(open(meta)) if meta.exists() else {}
@@ -57,7 +57,7 @@ def confirm(pid: str, k: int):
 
 if __name__ == "__main__":
     for pid in sys.argv[1:]:
-        for k in (1, 2, 3, 4, 5, 6):
+        for k in (1, 2, 3, 4, 5, 6, 7, 8):
             r = confirm(pid, k)
             if r is not None:
                 print(f"{pid}-{k}: {r}", flush=True)
